@@ -102,6 +102,15 @@ class SymFn:
         self.n_out = n_out
 
 
+class PIter:
+    """a single-use iterator (reversed(...), iter(...), zip, map, enumerate, a generator
+    expression): iterating it consumes it -- an object that stores one and iterates it on every
+    call gets nothing from the second call on"""
+
+    def __init__(self, items):
+        self.items = list(items)
+
+
 class Closure:
     def __init__(self, node, env, is_gen):
         self.node = node
@@ -372,6 +381,9 @@ class PEval:
 
     # -- helpers -------------------------------------------------------------------------
     def iterate(self, v):
+        if isinstance(v, PIter):
+            items, v.items = v.items, []
+            return items
         if isinstance(v, (list, tuple)):
             return list(v)
         if isinstance(v, range):
@@ -493,8 +505,10 @@ class PEval:
             if t is None:
                 raise Undecided("symbolic condition")
             return self.ev(e.body if t else e.orelse, env)
-        if isinstance(e, (ast.ListComp, ast.GeneratorExp)):
+        if isinstance(e, ast.ListComp):
             return self.comp(e, env)
+        if isinstance(e, ast.GeneratorExp):
+            return PIter(self.comp(e, env))
         if isinstance(e, ast.Call):
             return self.call(e, env)
         if isinstance(e, ast.Slice):
@@ -607,6 +621,8 @@ class PEval:
         if fn_text in ("len", "range", "zip", "enumerate", "reversed", "list", "tuple", "iter"):
             args = [self.ev(a, env) for a in e.args]
             if fn_text == "len":
+                if isinstance(args[0], PIter):
+                    raise Raises("TypeError: len() of an iterator")
                 if isinstance(args[0], (list, tuple)):
                     return len(args[0])
                 raise Undecided("len of a symbolic value")
@@ -615,12 +631,16 @@ class PEval:
                     return list(range(*args))
                 raise Undecided("symbolic range")
             if fn_text == "zip":
-                return list(zip(*[self.iterate(a) for a in args]))
+                return PIter(zip(*[self.iterate(a) for a in args]))
             if fn_text == "enumerate":
-                return list(enumerate(self.iterate(args[0])))
+                return PIter(enumerate(self.iterate(args[0])))
             if fn_text == "reversed":
-                return list(reversed(self.iterate(args[0])))
-            if fn_text in ("list", "iter"):
+                if isinstance(args[0], PIter):
+                    raise Raises("TypeError: reversed() of an iterator")
+                return PIter(reversed(self.iterate(args[0])))
+            if fn_text == "iter":
+                return PIter(self.iterate(args[0])) if args else PIter([])
+            if fn_text == "list":
                 return list(self.iterate(args[0])) if args else []
             if fn_text == "tuple":
                 return tuple(self.iterate(args[0])) if args else ()
